@@ -10,6 +10,8 @@ package couchbase
 import (
 	"context"
 	"errors"
+	"os"
+	"os/exec"
 	"sync"
 	"testing"
 	"time"
@@ -103,5 +105,34 @@ func TestVerifFallbackHealthCheck(t *testing.T) {
 	time.Sleep(1300 * time.Millisecond)
 	if cl.count() != n {
 		t.Fatalf("VIOLATION C19: %d pings were issued after Stop had returned", cl.count()-n)
+	}
+}
+
+// Child scenario (the termination happens on the checker's own goroutine and ends the process): a started health
+// checker whose pings always fail must terminate the process, whatever the configured interval and timeout.
+func TestVerifFallbackHealthChild(t *testing.T) {
+	if os.Getenv("VERIF_CHILD") != "health-always-failing" {
+		t.Skip("helper of the fallback deciders")
+	}
+	if logger.Log == nil {
+		logger.InitDefaultLogger("error")
+	}
+	cl := &vfPingClient{script: []error{errors.New("ping failed")}}
+	hc := NewHealthCheck(&config.HealthCheck{Interval: 20 * time.Millisecond, Timeout: 1500 * time.Millisecond}, cl)
+	hc.Start()
+	time.Sleep(9 * time.Second)
+	t.Logf("still alive after %d failed pings", cl.count())
+}
+
+func TestVerifFallbackHealthFailStop(t *testing.T) {
+	cmd := exec.Command(os.Args[0], "-test.run=^TestVerifFallbackHealthChild$", "-test.v")
+	cmd.Env = append(os.Environ(), "VERIF_CHILD=health-always-failing")
+	start := time.Now()
+	out, err := cmd.CombinedOutput()
+	if err == nil {
+		t.Fatalf("VIOLATION C19: a health checker whose pings always fail (timeout 1.5 s) did not terminate the process within 9 s: %.300s", out)
+	}
+	if d := time.Since(start); d < 3*time.Second {
+		t.Fatalf("VIOLATION C19: the process was terminated after %v, before five consecutive failed pings (4 retry waits of 1 s) could have happened", d)
 	}
 }
